@@ -885,6 +885,33 @@ fn reuse_and_payload_cases(out: &mut Out, ctx: &mut Ctx, rng: &mut Rng, n: usize
 		let (a, b) = (mk(rng, &a_tiles), mk(rng, &b_tiles));
 		reuse_one(out, ctx, &bin, target, format, comp, f, s, &a, &b, i % 2 == 0);
 	}
+	// byte-identical small payloads in DIFFERENT 256-blocks of one level (zoom 9: x = 254‥257; zoom 10: y = 510‥513), mixed with
+	// distinct payloads of varying length so that block-relative offsets differ between the blocks: every target, every flag
+	// pair; the output must carry the source payload at every T-image (seed C06-13: de-duplication shared across blocks)
+	for i in 0..(if n >= 20 { 20 } else { 10 }) {
+		let (f, s) = (i & 1 == 1, i & 2 == 2);
+		let target = TARGETS[(i / 4 + i) % 5];
+		let (format, comp) = if target == "mbtiles" { (TileFormat::PBF, TileCompression::Gzip) } else { (TileFormat::JSON, *rng.pick(&COMPS)) };
+		let mut b: BTreeMap<C, Vec<u8>> = BTreeMap::new();
+		let mut k = 0usize;
+		for (z, xs, ys) in [(9u8, 254u32..=257, 6u32..=8), (10u8, 3u32..=4, 510u32..=513)] {
+			for y in ys.clone() {
+				for x in xs.clone() {
+					k += 1;
+					let p = match k % 4 {
+						0 => b"SHARED".to_vec(),
+						1 => format!("{x}-{y}-{z}-").repeat(1 + (k * 7) % 9).into_bytes(),
+						2 => b"shared-999".repeat(90),
+						_ => b"s".repeat(1 + (x as usize + y as usize) % 3),
+					};
+					b.insert((x, y, z), p);
+				}
+			}
+		}
+		let a: BTreeMap<C, Vec<u8>> = [((1u32, 2u32, 3u8), b"x".to_vec())].into_iter().collect();
+		out.count("block_border_duplicates");
+		reuse_one(out, ctx, &bin, target, format, comp, f, s, &a, &b, false);
+	}
 	// sources from the independent encoders through the converter
 	for i in 0..n.min(12) {
 		let (f, s) = (i & 1 == 1, i & 2 == 2);
